@@ -366,6 +366,18 @@ def run_perm(pair, rng, variant, opts):
     tr.send("abi " + variant)                              # endpoint table vs the generated ABI
     tr.call(OWNER, "setSupport", [SUPPORT])
     if variant in NFT:
+        # the collection exists (as after a successful issue) but the initial SFTs do not: here the owner's
+        # createInitialSfts WOULD be accepted, so a refusal of anybody else is really the permission check and not
+        # "Invalid token ID"; probes only (the model does not know the collection), then the full set-up on both sides
+        tr.dump()
+        for who in (STRANGER, 10, CCALLER):
+            tr.call(who, "issueSft", egld=5, probe=True)          # nothing issued yet: only the permission check can refuse
+        tr.impl_only(call_line(OWNER, tr.round, tr.epoch, "sftIssued"))
+        tr.dump()
+        for who in (STRANGER, 10, CCALLER):
+            tr.call(who, "createSfts", probe=True)
+            tr.call(who, "setTransferRole", ["-"], probe=True)
+            tr.call(who, "issueSft", egld=5, probe=True)
         tr.call(OWNER, "sftSetup")
     perm_sweep(tr, variant, su, rng)                      # add-tickets phase, nothing allocated
     pairs = [(10, 3), (11, 2), (12, 1)]
